@@ -6,7 +6,7 @@ from mc.runner import Acc, jsonable
 
 ID = 'C14'
 LEVEL = 'model_checking'
-RULE = ('all vectors of length <= 4 (<= 5 thorough) over the pool {1, 2.5, -3, "2", "x", TRUE, blank, #N/A, #DIV/0!} laid '
+RULE = ('all vectors of length <= 4 (<= 5 thorough, and length 6 over a 6-value pool) over the pool {1, 2.5, -3, "2", "x", TRUE, blank, #N/A, #DIV/0!} laid '
         'out in every r x c factorisation; SUM / AVERAGE / MIN / MAX / COUNT and SUBTOTAL(n) / SUBTOTAL(100+n) through '
         'compiled formulas vs a reference written from the statement (numeric cells only, first error in reading order); '
         'permutation / reshape invariance (every vector is enumerated, so every permutation is); SUM over every two-block '
@@ -65,13 +65,16 @@ def env_for(v, r, c, col0=1, row0=1):
     return env, f'{W.get_column_letter(col0)}{row0}:{W.get_column_letter(col0 + c - 1)}{row0 + r - 1}'
 
 
+POOL6 = [1, -3, '2', True, None, '#N/A']
+
+
 def work(job):
     k, m, maxlen = job
     acc = Acc()
     ev = feval.Evaluator()
     i = 0
     for n in range(1, maxlen + 1):
-        for v in itertools.product(POOL, repeat=n):
+        for v in itertools.product(POOL if n <= 5 else POOL6, repeat=n):
             i += 1
             if i % m != k:
                 continue
@@ -213,7 +216,7 @@ def work_workbook(job):
 
 def run(ctx):
     m = 64
-    maxlen = 5 if ctx.thorough else 4
+    maxlen = 6 if ctx.thorough else 4
     ctx.pmap(work, [((k + ctx.seed) % m, m, maxlen) for k in range(m)], timeout=6000)
     ctx.pmap(work_sumproduct, [(k, 32, 3 if ctx.thorough else 2) for k in range(32)], timeout=6000)
     vs = list(itertools.product(POOL, repeat=3))
